@@ -46,11 +46,11 @@ def _canonical(f):
             if isinstance(lp.target, ast.Tuple) and len(lp.target.elts) == 2 and all(isinstance(e_, ast.Name) for e_ in lp.target.elts):
                 m[lp.target.elts[0].id] = 'ipix'
                 m[lp.target.elts[1].id] = 'pix'
-            for st in lp.body:
-                if isinstance(st, ast.AugAssign) and isinstance(st.op, ast.BitOr) and isinstance(st.target, ast.Name):
+            for st in ast.walk(lp):
+                if isinstance(st, ast.AugAssign) and isinstance(st.op, ast.BitOr) and isinstance(st.target, ast.Name) and \
+                        isinstance(st.value, ast.Name):
                     m[st.target.id] = 'invalid_all'
-                    if isinstance(st.value, ast.Name):
-                        m[st.value.id] = 'invalid'
+                    m[st.value.id] = 'invalid'
     inv_all = [a for a, c_ in m.items() if c_ == 'invalid_all']
     for st in ast.walk(node):
         if isinstance(st, ast.Assign) and len(st.targets) == 1 and isinstance(st.targets[0], ast.Subscript) and \
@@ -88,17 +88,29 @@ def _cache_aliases(node):
             stores[n_.id] = stores.get(n_.id, 0) + 1
     once = {st_.targets[0].id: st_.value for st_ in ast.walk(node) if isinstance(st_, ast.Assign) and len(st_.targets) == 1
             and isinstance(st_.targets[0], ast.Name) and stores.get(st_.targets[0].id) == 1}
-    for name, value in once.items():
-        v = value
-        if isinstance(v, ast.IfExp):
-            arms = [a for a in (v.body, v.orelse) if not (isinstance(a, ast.Constant) and a.value is None)]
-            if len(arms) != 1:
+    def empty(a):
+        return (isinstance(a, ast.Constant) and a.value is None) or (isinstance(a, ast.Dict) and not a.keys) or \
+            (isinstance(a, ast.Call) and isinstance(a.func, ast.Name) and a.func.id == 'dict' and not a.args and not a.keywords)
+
+    class Known(ast.NodeTransformer):
+        def visit_Name(self, n):
+            if isinstance(n.ctx, ast.Load) and n.id in aliases:
+                return ast.copy_location(copy.deepcopy(aliases[n.id]), n)
+            return n
+    for _ in range(3):          # a record reached through a record reached through a local
+        for name, value in once.items():
+            if name in aliases:
                 continue
-            v = arms[0]
-        v2 = Sub().visit(copy.deepcopy(v))
-        t = unparse(v2)
-        if isinstance(v2, ast.Subscript) and t.split('[')[0] in ('PIXEL_CACHE', 'ARRAY_CACHE') and t.count('[') in (1, 2):
-            aliases[name] = v2
+            v = value
+            if isinstance(v, ast.IfExp):
+                arms = [a for a in (v.body, v.orelse) if not empty(a)]
+                if len(arms) != 1:
+                    continue
+                v = arms[0]
+            v2 = Sub().visit(Known().visit(copy.deepcopy(v)))
+            t = unparse(v2)
+            if isinstance(v2, ast.Subscript) and t.split('[')[0] in ('PIXEL_CACHE', 'ARRAY_CACHE') and t.count('[') in (1, 2):
+                aliases[name] = v2
     if not aliases:
         return node
     new = copy.deepcopy(node)
@@ -198,6 +210,17 @@ def rule_a(ctx, ix, f):
     HIT = _c.T("eq|ARRAY_CACHE[cache_id]['hash']|current_array_hash")
     GIVEN = _c.Not(_c.T('is|None|cache_id'))
     hits = [r for r in returns_of(f) if r.value is not None and 'ARRAY_CACHE' in unparse(r.value) and "['array']" in unparse(r.value).replace('"', "'")]
+    if not hits:
+        # the stored array goes through a local first (`cached = ...['array']` under the hit test, None otherwise; `if cached
+        # is not None: return cached`): the statement that reads it out of the cache is the one whose condition matters
+        returned = {r.value.id for r in returns_of(f) if isinstance(r.value, ast.Name)}
+        names = set(returned)
+        for st_ in walk_no_nested(f.node):
+            if isinstance(st_, ast.Assign) and len(st_.targets) == 1 and isinstance(st_.targets[0], ast.Name) and isinstance(st_.value, ast.Name) \
+                    and st_.targets[0].id in names:
+                names.add(st_.value.id)
+        hits = [st_ for st_ in walk_no_nested(f.node) if isinstance(st_, ast.Assign) and len(st_.targets) == 1 and isinstance(st_.targets[0], ast.Name)
+                and st_.targets[0].id in names and 'ARRAY_CACHE' in unparse(st_.value) and "['array']" in unparse(st_.value).replace('"', "'")]
     ok, guarded = len(hits) == 1, False
     if ok:
         pc_hit = _c.path_condition(f.node, hits[0], expand=False) or ('const', True)
@@ -406,6 +429,11 @@ def rule_b(ctx, ix, f):
                if call_name(c_) == 'setdefault' and unparse(c_.func) == 'PIXEL_CACHE.setdefault' and len(c_.args) == 2
                and unparse(c_.args[0]) == 'cache_id']
         ok = len(hs) == 1 and 'current_pixel_hash' in unparse(hs[0].value)
+        if not ok and len(hs) == 1 and isinstance(hs[0].value, ast.Dict):
+            # the hash written out where the local was (a helper took it as an argument)
+            ph_ = [st_ for st_ in walk_no_nested(f.node) if isinstance(st_, ast.Assign) and unparse(st_.targets[0]) == 'current_pixel_hash']
+            hv_ = [v_ for k_, v_ in zip(hs[0].value.keys, hs[0].value.values) if isinstance(k_, ast.Constant) and k_.value == 'hash']
+            ok = len(ph_) == 1 and len(hv_) == 1 and unparse(hv_[0]) == unparse(ph_[0].value)
         ctx.ob(R, f.construct + ' entry hash', 'a new pixel-cache record carries the current pixel hash', ok,
                detail='a new PIXEL_CACHE record is created as %s' % (unparse(hs[0].value) if hs else None), where=f.where)
 
@@ -417,34 +445,56 @@ def rule_c(ctx, ix, f):
     if len(loops) != 1:
         raise AnalysisError('compute_fixed_resolution_buffer: per-axis loop not recognised')
     lp = loops[0]
-    acc = [st for st in lp.body if isinstance(st, ast.AugAssign) and isinstance(st.op, ast.BitOr) and unparse(st.target) == 'invalid_all']
-    ctx.ob(R, f.construct + ' accumulate', 'invalid_all |= invalid runs for every axis, after both the cached and the uncached branch',
-           len(acc) == 1 and unparse(acc[0].value) == 'invalid',
-           detail='the accumulation of the per-axis invalid mask is not an unconditional statement of the per-axis loop: on the %s '
-                  'branch out-of-range samples keep the value of pixel 0' % ('cached' if not acc else 'other'), where=where(f, lp))
-    use = [n for n in lp.body if isinstance(n, ast.If) and "['bounds']" in unparse(n.test)]
-    if len(use) == 1:
-        # which arm is the cache hit: the one that reads the stored coordinates
-        hit_first = any("['translated_coord']" in unparse(x) or "['invalid']" in unparse(x) for st_ in use[0].body for x in ast.walk(st_)
-                        if isinstance(x, ast.Subscript) and isinstance(x.ctx, ast.Load))
-        arms = (use[0].body, use[0].orelse) if hit_first else (use[0].orelse, use[0].body)
+    # every way through one iteration accumulates the per-axis mask, and the mask it accumulates was defined in that iteration -
+    # whichever way the cached / uncached arms are written (if / else, early `continue`, a generator spliced in)
+    cfg = CFG(f.node)
+    h = cfg.node_for(lp)
 
-        class _U(object):
-            body, orelse = arms
-            test = use[0].test
-            lineno = use[0].lineno
-        use = [_U]
-        for body, which in ((use[0].body, 'cached'), (use[0].orelse, 'uncached')):
-            ok = any(isinstance(st, ast.Assign) and unparse(st.targets[0]) == 'invalid' for st in body)
-            ctx.ob(R, f.construct + ' ' + which, 'the %s branch defines the per-axis invalid mask' % which, ok,
-                   detail='the %s branch does not define `invalid`' % which, where=where(f, use[0]))
-        ipix_ = unparse(lp.target.elts[0]) if isinstance(lp.target, ast.Tuple) and lp.target.elts else 'ipix'
-        from ..util import alpha as _alpha
-        want_ = _alpha("invalid = (c < 0) | (c >= data.shape[%s])" % ipix_)
-        ok = any(isinstance(st, ast.Assign) and unparse(st.targets[0]) == 'invalid' and
-                 _alpha(st) in (want_, _alpha("invalid = (c >= data.shape[%s]) | (c < 0)" % ipix_)) for st in use[0].orelse)
-        ctx.ob(R, f.construct + ' bounds check', 'invalid = (coord < 0) | (coord >= size of that axis of the source)', ok,
-               detail='the out-of-range test of the uncached branch is not (coord < 0) | (coord >= data.shape[ipix])', where=where(f, use[0]))
+    def binds(st, name):
+        if not isinstance(st, ast.Assign):
+            return False
+        return any(isinstance(n_, ast.Name) and n_.id == name and isinstance(n_.ctx, ast.Store) for t in st.targets for n_ in ast.walk(t))
+    inloop = {cfg.node_for(x) for x in ast.walk(lp) if cfg.node_for(x) is not None}
+    A = {n_ for n_ in inloop if isinstance(cfg.stmt[n_], ast.AugAssign) and isinstance(cfg.stmt[n_].op, ast.BitOr)
+         and unparse(cfg.stmt[n_].target) == 'invalid_all' and cfg.kind[n_] == 'stmt'}
+    vals = {unparse(cfg.stmt[n_].value) for n_ in A}
+    skipping = None
+    if A and h is not None:
+        for (s_, lab_) in cfg.succ[h]:
+            if lab_ != 'loop':
+                continue
+            if s_ in A:
+                continue
+            skipping = cfg.path_avoiding(s_, h, avoid=A, labels_excluded=('exc', 'raise'))
+            if skipping is not None:
+                break
+    ctx.ob(R, f.construct + ' accumulate', 'invalid_all |= invalid runs for every axis, after both the cached and the uncached branch',
+           bool(A) and skipping is None and vals == {'invalid'},
+           detail='the accumulation of the per-axis invalid mask does not run on every path through the per-axis loop: on the %s '
+                  'branch out-of-range samples keep the value of pixel 0' % ('cached' if not A else 'other'), where=where(f, lp),
+           path=cfg.guards_on_path(skipping) if skipping else None)
+    D = {n_ for n_ in inloop if cfg.kind[n_] == 'stmt' and binds(cfg.stmt[n_], 'invalid')}
+    for which, pred in (('cached', lambda st: any(isinstance(x, ast.Subscript) and isinstance(x.ctx, ast.Load) and "['invalid']" in unparse(x).replace('"', "'") for x in ast.walk(st.value))),
+                        ('uncached', lambda st: not any(isinstance(x, ast.Subscript) and isinstance(x.ctx, ast.Load) and "['invalid']" in unparse(x).replace('"', "'") for x in ast.walk(st.value)))):
+        ok = any(pred(cfg.stmt[n_]) for n_ in D)
+        ctx.ob(R, f.construct + ' ' + which, 'the %s branch defines the per-axis invalid mask' % which, ok,
+               detail='the %s branch does not define `invalid`' % which, where=where(f, lp))
+    undefined = None
+    if h is not None:
+        for a_ in sorted(A):
+            undefined = cfg.path_avoiding(h, a_, avoid=D, labels_excluded=('exc', 'raise'))
+            if undefined is not None:
+                break
+    ctx.ob(R, f.construct + ' defined', 'the mask that is accumulated was defined in the same iteration', bool(D) and undefined is None,
+           detail='an iteration of the per-axis loop can accumulate `invalid` without having defined it (the mask of the previous axis is '
+                  'used)', where=where(f, lp), nontrivial=False)
+    ipix_ = unparse(lp.target.elts[0]) if isinstance(lp.target, ast.Tuple) and lp.target.elts else 'ipix'
+    from ..util import alpha as _alpha
+    want_ = _alpha("invalid = (c < 0) | (c >= data.shape[%s])" % ipix_)
+    ok = any(isinstance(st, ast.Assign) and unparse(st.targets[0]) == 'invalid' and
+             _alpha(st) in (want_, _alpha("invalid = (c >= data.shape[%s]) | (c < 0)" % ipix_)) for st in ast.walk(lp))
+    ctx.ob(R, f.construct + ' bounds check', 'invalid = (coord < 0) | (coord >= size of that axis of the source)', ok,
+           detail='the out-of-range test of the uncached branch is not (coord < 0) | (coord >= data.shape[ipix])', where=where(f, lp))
     from ..util import expand_locals, element_cases
     from .. import cond
     app = [st for st in walk_no_nested(f.node) if isinstance(st, ast.Assign) and unparse(st.targets[0]) == 'array[invalid_all]']
